@@ -139,6 +139,22 @@ pub fn run(ctx: &Ctx) -> CheckResult {
                     }
                 }
             }));
+            // a gamemap whose (well-formed) target draws diagnostics with source locations: they must
+            // point into the target file, at lines that exist there
+            for (tag, body) in [("warns", "!nosuchsection\n1 a\n\n\n\n\n\n!gvar_types\n10000 ?\n"), ("errors", "\n\n\n\n\n\n\n\n!ins_signatures\n900 Q?(\n901 S(enum=\"Nope\")\n")] {
+                env_cases.push(mk(&format!("gamemap-target-{}", tag), &|c| {
+                    let t = gm(c, "gm-target.map");
+                    c.inputs.push(crate::case::Input::text("gm.map", &t));
+                    let magic = match c.steps[0].argv[0].as_str() {
+                        "truanm" => "!anmmap",
+                        "trustd" => "!stdmap",
+                        "trumsg" => "!msgmap",
+                        _ => "!eclmap",
+                    };
+                    c.inputs.push(crate::case::Input::text("gm-target.map", &format!("{}\n{}", magic, body)));
+                    c.steps[0].argv.extend(["-m".to_string(), "gm.map".to_string()]);
+                }));
+            }
             env_cases.push(mk("gamemap-target-missing", &|c| {
                 let t = gm(c, "nowhere.map");
                 c.inputs.push(crate::case::Input::text("gm.map", &t));
